@@ -55,8 +55,8 @@ theorem change_identity_resets (E : Env) (newId : Id) (pol : Policy) (c : Ctx) (
 
 /-- With a renewable identity, learning that it is Down makes the instance attempt exactly that change of
     identity — to an identity of the same address that differs from and wins against the old one — and
-    notify Rejoin (never Defunct). -/
-theorem told_down_renews_identity (E : Env) (c : Ctx) (hp : c.s.policy = .bump) :
+    notify Rejoin (never Defunct) — as long as the `u16` generation has not reached its maximum. -/
+theorem told_down_renews_identity (E : Env) (c : Ctx) (hp : c.s.policy = .bump) (hg : c.s.id.gen < 65535) :
     handleSelfUpdate E 0 .down c =
       (do changeIdentity E ⟨c.s.id.addr, c.s.id.gen + 1⟩ .bump
           emit (.notify (.rejoin ⟨c.s.id.addr, c.s.id.gen + 1⟩))) c ∧
@@ -65,8 +65,9 @@ theorem told_down_renews_identity (E : Env) (c : Ctx) (hp : c.s.policy = .bump) 
     intro h; have := congrArg Id.gen h; simp at this
   have hw : (⟨c.s.id.addr, c.s.id.gen + 1⟩ : Id).wins c.s.id = true := by simp [Id.wins]
   refine ⟨?_, hw, hne⟩
+  have hm : (c.s.id.gen + 1) % 65536 = c.s.id.gen + 1 := Nat.mod_eq_of_lt (by omega)
   unfold handleSelfUpdate attemptRejoin
-  simp only [bind_run, getS_run, hp, renew]
+  simp only [bind_run, getS_run, hp, renew, hm]
   have hne' : (c.s.id == (⟨c.s.id.addr, c.s.id.gen + 1⟩ : Id)) = false := by simpa using hne
   have hw' : renewWins Policy.bump (⟨c.s.id.addr, c.s.id.gen + 1⟩ : Id) c.s.id = true := by simp [renewWins, Id.wins]
   simp only [hne', Bool.false_eq_true, if_false, hw', Bool.not_true]
